@@ -4371,7 +4371,8 @@ static PyObject* ormlq(PyObject *self, PyObject *args, PyObject *kwrds)
     if (ldC == 0) ldC = MAX(1,C->nrows);
     if (ldC < MAX(1,m)) err_ld("ldC");
     if (oA < 0) err_nn_int("offsetA");
-    if (oA + ldA * ((side == 'L') ? m : n) > len(A)) err_buf_len("A");
+    if (oA + (((side == 'L') ? m : n) - 1)*ldA + k > len(A))
+        err_buf_len("A");
     if (oC < 0) err_nn_int("offsetC");
     if (oC + (n-1)*ldC + m > len(C)) err_buf_len("C");
     if (len(tau) < k) err_buf_len("tau");
@@ -4483,7 +4484,8 @@ static PyObject* unmlq(PyObject *self, PyObject *args, PyObject *kwrds)
     if (ldC == 0) ldC = MAX(1,C->nrows);
     if (ldC < MAX(1,m)) err_ld("ldC");
     if (oA < 0) err_nn_int("offsetA");
-    if (oA + ldA * ((side == 'L') ? m : n) > len(A)) err_buf_len("A");
+    if (oA + (((side == 'L') ? m : n) - 1)*ldA + k > len(A))
+        err_buf_len("A");
     if (oC < 0) err_nn_int("offsetC");
     if (oC + (n-1)*ldC + m > len(C)) err_buf_len("C");
     if (len(tau) < k) err_buf_len("tau");
